@@ -69,62 +69,163 @@ func init() {
 			panic(engineError{"json stub: Decode from a reader that does not describe its body (" + rd.t.String() + ")"})
 		}
 		res := call(fr.i, fr, token.NoPos, m, []value{rd.v}).(tuple)
-		mode := int(fr.conc(res[0]))
-		switch mode {
+		var doc jdoc
+		switch int(fr.conc(res[0])) {
 		case 0:
 			return makeError(fr, "invalid character 'x' looking for beginning of value")
 		case 1:
-			return iface{}
+			doc = jobj{keys: []string{"other"}, vals: []jdoc{jnum("1")}}
+		case 2:
+			doc = jobj{keys: []string{"level"}, vals: []jdoc{jstr{mkStr(append([]value{}, res[1].([]value)...))}}}
+		case 3:
+			doc = jobj{keys: []string{"level"}, vals: []jdoc{nil}}
+		case 4:
+			doc = jobj{keys: []string{"level"}, vals: []jdoc{jnum("5")}}
+		default:
+			panic(engineError{"json stub: unknown body mode"})
 		}
-		// locate the `json:"level"` field of the target struct
 		target := args[1].(iface)
 		pt, _ := target.t.(*types.Pointer)
 		if pt == nil {
-			panic(engineError{"json stub: Decode target is not a pointer"})
+			return makeError(fr, "json: Unmarshal(non-pointer)")
 		}
-		st, _ := pt.Elem().Underlying().(*types.Struct)
-		if st == nil {
-			panic(engineError{"json stub: Decode target is not a struct"})
+		return jsonPopulate(fr, pt.Elem(), target.v.(*value), doc)
+	}
+	// json.Unmarshal of a single scalar document (what a RawMessage produced by the stub holds).
+	I["encoding/json.Unmarshal"] = func(fr *frame, args []value) value {
+		data := args[0].([]value)
+		target := args[1].(iface)
+		pt, _ := target.t.(*types.Pointer)
+		if pt == nil || target.v.(*value) == nil {
+			return makeError(fr, "json: Unmarshal(non-pointer or nil)")
 		}
-		cellp := target.v.(*value)
-		for i := 0; i < st.NumFields(); i++ {
-			tag := reflect.StructTag(st.Tag(i)).Get("json")
-			name := strings.Split(tag, ",")[0]
-			if name == "" {
-				name = st.Field(i).Name()
-			}
-			if !strings.EqualFold(name, "level") {
-				continue
-			}
-			ft := st.Field(i).Type()
-			elem := ft
-			isPtr := false
-			if p, ok := ft.(*types.Pointer); ok {
-				elem, isPtr = p.Elem(), true
-			}
-			um := findMethod(fr, types.NewPointer(elem), "UnmarshalText")
-			if um == nil {
-				panic(engineError{"json stub: level field without UnmarshalText"})
-			}
-			nv := new(value)
-			*nv = zero(elem)
-			if !isPtr {
-				*nv = (*cellp).(structure)[i]
-			}
-			errv := call(fr.i, fr, token.NoPos, um, []value{nv, res[1]})
-			if e, ok := errv.(iface); ok && e.t != nil {
-				return errv
-			}
-			s := (*cellp).(structure)
-			if isPtr {
-				s[i] = nv
-			} else {
-				s[i] = *nv
-			}
-			return iface{}
+		doc, ok := jsonScalarDoc(data)
+		if !ok {
+			panic(engineError{"json stub: Unmarshal of a document that is not a single scalar"})
 		}
+		return jsonPopulate(fr, pt.Elem(), target.v.(*value), doc)
+	}
+}
+
+// A tiny JSON document model: nil (null), jstr, jnum, jobj.
+type jdoc interface{}
+type jstr struct{ s value } // string or symstr (bytes assumed free of quote and backslash)
+type jnum string
+type jobj struct {
+	keys []string
+	vals []jdoc
+}
+
+func jsonRender(d jdoc) []value {
+	switch x := d.(type) {
+	case nil:
+		return strBytes("null")
+	case jstr:
+		out := []value{byte('"')}
+		out = append(out, strBytes(x.s)...)
+		return append(out, byte('"'))
+	case jnum:
+		return strBytes(string(x))
+	}
+	panic(engineError{"json stub: cannot render an object into a RawMessage"})
+}
+
+func jsonScalarDoc(data []value) (jdoc, bool) {
+	isConc := func(i int, c byte) bool { b, ok := data[i].(uint8); return ok && b == c }
+	n := len(data)
+	if n >= 2 && isConc(0, '"') && isConc(n-1, '"') {
+		return jstr{mkStr(append([]value{}, data[1:n-1]...))}, true
+	}
+	var sb strings.Builder
+	for _, e := range data {
+		b, ok := e.(uint8)
+		if !ok {
+			return nil, false
+		}
+		sb.WriteByte(b)
+	}
+	t := strings.TrimSpace(sb.String())
+	if t == "null" {
+		return nil, true
+	}
+	if t != "" && strings.Trim(t, "0123456789.-+eE") == "" {
+		return jnum(t), true
+	}
+	return nil, false
+}
+
+// jsonPopulate stores doc into the cell of static type t the way encoding/json would, running the
+// target's own UnmarshalText where it has one. It returns the error value (nil interface on success).
+func jsonPopulate(fr *frame, t types.Type, cell *value, doc jdoc) value {
+	if named, ok := t.(*types.Named); ok && named.Obj().Pkg() != nil && named.Obj().Pkg().Path() == "encoding/json" && named.Obj().Name() == "RawMessage" {
+		*cell = jsonRender(doc)
 		return iface{}
 	}
+	if findMethod(fr, types.NewPointer(t), "UnmarshalJSON") != nil {
+		panic(engineError{"json stub: target type " + t.String() + " has its own UnmarshalJSON"})
+	}
+	if p, ok := t.Underlying().(*types.Pointer); ok {
+		if doc == nil {
+			*cell = (*value)(nil)
+			return iface{}
+		}
+		nv := new(value)
+		*nv = zero(p.Elem())
+		if err := jsonPopulate(fr, p.Elem(), nv, doc); !isNilIface(err) {
+			return err
+		}
+		*cell = nv
+		return iface{}
+	}
+	if doc == nil {
+		return iface{} // null into a non-pointer: no effect
+	}
+	if um := findMethod(fr, types.NewPointer(t), "UnmarshalText"); um != nil {
+		s, ok := doc.(jstr)
+		if !ok {
+			return makeError(fr, "json: cannot unmarshal number into Go value of type "+t.String())
+		}
+		return call(fr.i, fr, token.NoPos, um, []value{cell, append([]value{}, strBytes(s.s)...)})
+	}
+	switch u := t.Underlying().(type) {
+	case *types.Struct:
+		o, ok := doc.(jobj)
+		if !ok {
+			return makeError(fr, "json: cannot unmarshal into Go value of type "+t.String())
+		}
+		st := (*cell).(structure)
+		for k, key := range o.keys {
+			for i := 0; i < u.NumFields(); i++ {
+				name := strings.Split(reflect.StructTag(u.Tag(i)).Get("json"), ",")[0]
+				if name == "" {
+					name = u.Field(i).Name()
+				}
+				if name == "-" || !strings.EqualFold(name, key) {
+					continue
+				}
+				if err := jsonPopulate(fr, u.Field(i).Type(), &st[i], o.vals[k]); !isNilIface(err) {
+					return err
+				}
+			}
+		}
+		return iface{}
+	case *types.Basic:
+		switch {
+		case u.Info()&types.IsString != 0:
+			s, ok := doc.(jstr)
+			if !ok {
+				return makeError(fr, "json: cannot unmarshal number into Go value of type string")
+			}
+			*cell = s.s
+			return iface{}
+		}
+	}
+	panic(engineError{"json stub: cannot populate " + t.String()})
+}
+
+func isNilIface(v value) bool {
+	i, ok := v.(iface)
+	return ok && i.t == nil
 }
 
 func ptrKey(p *value) string { return reflect.ValueOf(p).String() + addrString(p) }
